@@ -7,6 +7,10 @@ import json
 import os
 from pathlib import Path
 
+import subprocess
+import sys
+
+import c05_select
 import core
 import extract
 import pyx_emul
@@ -310,12 +314,18 @@ def run(ctx: core.Run):
                 ctx.fail(f"C05/dec/impls-differ/{name}/" + ("replicate-header-is-last-byte" if last else "other"),
                          f"decoders differ: py vs {name}", {"data": hx(e), "size": n}, _r(o), _r(ref))
     ctx.sample({"dec": hx(dec_cases[len(dec_cases) // 2][0]), "size": dec_cases[len(dec_cases) // 2][1]})
+    retained_and_selected(ctx, rle_py, impls_enc, impls_dec, so_files, gen)
     ctx.rule = (
         "encoder: one representative of every adjacent-equality pattern up to length %d (exhaustive), run-length "
         "compositions over {1,2,3,126..130,254..258}, random small-alphabet strings; decoder: every string up to "
         "length %d over the header alphabet {0,1,2,126,127,128,129,130,254,255} x size 0..8 (exhaustive), mutated "
         "valid streams, exact streams. A case is non-trivial when the input has >= 2 bytes (encoder) or >= 1 byte "
-        "(decoder); distinct = distinct (kind, bytes, size) tuples." % (maxlen, dlen)
+        "(decoder); distinct = distinct (kind, bytes, size) tuples. Results as values: fixed batches of rows (0, 1, 2, 3 "
+        "bytes mixed with 127..301-byte rows, in several orders; one-pixel-wide channels) encoded / decoded with every "
+        "result KEPT and validated only after the whole batch, per implementation. Selection: a fresh interpreter per "
+        "configuration {_rle importable, _rle unimportable}: import, which module is rle_impl, the retained-results "
+        "battery and RLE compress/decompress of 1/8/16/32-bit rasters x PSD/PSB through the selected implementation "
+        "against an independent row-table reading." % (maxlen, dlen)
     )
     ctx.exhaustive = False
     ctx.notes += [
@@ -332,6 +342,60 @@ def run(ctx: core.Run):
         ctx.recheck(["PsdVerif.Props.C05"])
 
 
+def retained_and_selected(ctx, rle_py, impls_enc, impls_dec, so_files, gen):
+    """(1) results are values, not views of a buffer a later call rewrites; (2) the contract through the
+    implementation the package selects, with and without the compiled extension (harness/c05_select.py)."""
+    mods = {"py": rle_py}
+    decs = dict(impls_dec)
+    for name, enc in impls_enc:
+        if name == "py":        # the lambdas above return the implementation's own object: keep that
+            enc, dec = rle_py.encode, rle_py.decode
+        else:
+            dec = decs[name]
+        n, fails = c05_select.retention_battery(enc, dec, mods.get(name))
+        ctx.count(("retained", name), n=n)
+        ctx.hist("retained_calls", name, n)
+        for f in fails:
+            ctx.fail(f"C05/retained/{name}/{f['mech']}", f"{name}: {f['what']}", dict(f["input"], impl=name),
+                     f["observed"], f["expected"])
+    sel = (gen or {}).get("selection") if gen else None
+    ctx.extra["selection_statement"] = sel
+    expect = {"no-compiled": "psd_tools.compression.rle",
+              "compiled": "psd_tools.compression._rle" if so_files else "psd_tools.compression.rle"}
+    observed = {}
+    for config in ("compiled", "no-compiled"):
+        env = dict(os.environ, PSD_REPO=str(core.REPO), PYTHONDONTWRITEBYTECODE="1")
+        env.pop("PYTHONPATH", None)
+        try:
+            p = subprocess.run([sys.executable, str(core.VERIF / "harness" / "c05_select.py"), config],
+                               capture_output=True, text=True, timeout=300, env=env, cwd=str(core.VERIF / "harness"))
+        except subprocess.TimeoutExpired:
+            raise core.Infra("c05_select.py timed out")
+        try:
+            out = json.loads(p.stdout.strip().splitlines()[-1])
+        except Exception:  # noqa
+            raise core.Infra("c05_select.py gave no answer: " + (p.stderr or p.stdout)[-400:])
+        observed[config] = {k: out[k] for k in ("imported", "selected", "cases")}
+        inp = {"configuration": config,
+               "how": "fresh interpreter; " + ("nothing blocked" if config == "compiled" else
+                                               "import of psd_tools.compression._rle raises ImportError (meta-path finder)"),
+               "then": "import psd_tools.compression"}
+        ctx.count(("selection", config), n=max(1, out["cases"]))
+        if out["imported"] != "ok":
+            ctx.fail(f"C05/selection/{config}/package-import-raises/{out['imported'].split(':')[0]}",
+                     f"with the compiled extension {'present' if config == 'compiled' else 'unimportable'} "
+                     f"`import psd_tools.compression` raises {out['imported']}: no codec at all in this configuration",
+                     inp, out["imported"], "the package imports and rle_impl is " + expect[config])
+            continue
+        if out["selected"] != expect[config]:
+            ctx.fail(f"C05/selection/{config}/selects/{out['selected']}", "the selection binds another implementation",
+                     inp, out["selected"], expect[config])
+        for f in out["failures"]:
+            ctx.fail(f"C05/selection/{config}/{f['mech']}", f"selected implementation ({out['selected']}): {f['what']}",
+                     dict(f["input"], **inp), f["observed"], f["expected"])
+    ctx.extra["selection_observed"] = observed
+
+
 def _r(o):
     return [o[0], hx(o[1]) if isinstance(o[1], (bytes, bytearray)) else o[1]]
 
@@ -343,6 +407,22 @@ def replay(ctx, data):
     if "size" in inp:
         for name, f in [("py", rle_py.decode), ("pyx", pyx_emul.load(COMP / "_rle.pyx")[1])]:
             print(name, "decode ->", _r(call(f, unhx(inp["data"]), inp["size"])))
+    elif "configuration" in inp:
+        env = dict(os.environ, PSD_REPO=str(core.REPO))
+        p = subprocess.run([sys.executable, str(core.VERIF / "harness" / "c05_select.py"), inp["configuration"]],
+                           capture_output=True, text=True, env=env)
+        print(p.stdout[-3000:], p.stderr[-2000:])
+    elif "calls" in inp:
+        enc, dec = rle_py.encode, rle_py.decode
+        if inp.get("impl") == "pyx":
+            enc, dec, _ = pyx_emul.load(COMP / "_rle.pyx")
+        kept = []
+        for c in inp["calls"]:
+            r = dec(unhx(c["data"]), c["size"]) if "size" in c else enc(unhx(c["data"]))
+            kept.append((c, r, bytes(r)))
+            print("call", c, "->", type(r).__name__, hx(r))
+        for c, r, snap in kept:
+            print("kept result of", c, "now", hx(r), "(was", hx(snap) + ")", "CHANGED" if bytes(r) != snap else "")
     elif "data" in inp:
         for name, f in [("py", rle_py.encode), ("pyx", pyx_emul.load(COMP / "_rle.pyx")[0])]:
             print(name, "encode ->", _r(call(f, unhx(inp["data"]))))
